@@ -220,7 +220,9 @@ def evaluate(eng, res, rnd, L, tree, align, ptr, cfg, sigs, ref, model=True):
     # natural alignment / non-overlap, stated directly
     if align and T.size is not None:
         for f in T.__fields__:
-            if f.offset is not None and f.offset % f.alignment:
+            if not f.alignment or f.alignment < 1:
+                eng.report(f"field {f._name} has alignment {f.alignment!r}: a member's alignment is at least 1", data, sigs)
+            elif f.offset is not None and f.offset % f.alignment:
                 eng.report(f"field {f._name} at offset {f.offset} is not a multiple of its alignment {f.alignment}", data, sigs)
         if T.alignment and T.size % T.alignment:
             eng.report(f"size {T.size} is not a multiple of the alignment {T.alignment}", data, sigs)
